@@ -60,10 +60,12 @@ def diff_stream(ctx, outdir, name, label):
 
 
 def oracle_lines(ctx, out, label):
-    for l in out.splitlines():
+    lines = out.splitlines()
+    for n, l in enumerate(lines):
         if l.startswith("ORACLE-FAIL"):
             key = l.split("key=")[1].split()[0]
-            ctx.violation(key, l[len("ORACLE-FAIL "):], "%s\n(run: %s, seed %s)\n" % (l, label, ctx.seed))
+            script = next((x for x in lines[n:] if x.startswith("SCRIPT ")), "")
+            ctx.violation(key, l[len("ORACLE-FAIL "):], "%s\n%s\n(run: %s, seed %s)\n" % (l, script, label, ctx.seed))
         elif l.startswith(("DIST", "ORACLE-OK", "CONVERGENCE", "HOSTILE")):
             ctx.corr.setdefault(label, []).append(l)
 
@@ -118,7 +120,7 @@ def run(ctx):
         "nsqlookupd drops a closed connection's registrations (IOLoop exit) — C14's domain; REGISTER/UNREGISTER "
         "semantics of lookup_protocol_v1.go as modelled in LookupSync.register/unregister",
         "net (dial/read/write deadlines of 1 s), go-nsq command encoding, encoding/json of the IDENTIFY reply",
-        "translator tools/go2lean kinds `seq`/`stmts` (order of effects in connectCallback, Command, lookupLoop, "
+        "translator tools/go2lean kinds `effseq`/`stmts` (order of effects in connectCallback, Command, lookupLoop, "
         "GetTopic; guards of readResponseBounded)",
         "harness harness/e6/sync_test.go: real NSQD with the verif heartbeat override (100 ms), two scripted fake "
         "lookupds (real wire protocol, fault injection), one real in-process nsqlookupd restarted on its ports",
